@@ -24,11 +24,13 @@ Definition check_case (c : c04case) : N * N :=
                   Nat.eqb (n_tablecmp m) tc && Nat.eqb (n_typecheck m) ty in
       (* never on a false (value-judged) condition; always on the canonical spelling *)
       let over := Nat.ltb (count cond_div0 ns) d0 || Nat.ltb (count cond_nan ns) nn || Nat.ltb (count cond_revloop ns) rl in
+      (* duplicate_keys: never more reports than there are keys that denote an already declared value *)
+      let over_dk := Nat.ltb (fold_right (fun n a => (vdup_keys_count n + a)%nat) O ns) dk in
       let under := Nat.ltb d0 (count is_div0 ns) || Nat.ltb nn (count is_compare_nan ns) || Nat.ltb rl (count is_reverse_loop ns)
                    || Nat.ltb el (count is_empty_loop ns) || Nat.ltb ub (count is_unbalanced ns)
                    || Nat.ltb mx (count is_mixed ns) || Nat.ltb tc (count is_table_comparison ns) || Nat.ltb ty (count is_type_check_inside ns) in
       let l2 := existsb l2_node ns in
-      (bit (negb corr) 1 + bit (over && negb l2) 4 + bit under 8, bit (over && l2) 1)%N
+      (bit (negb corr) 1 + bit ((over && negb l2) || over_dk) 4 + bit under 8, bit (over && l2) 1)%N
   | CArgs ps a reported =>
       let m := negb (correct_num_args (params_count ps 0) (passed a)) in
       let spec := match params_count ps 0 with PFixed k => Nat.ltb k (syntactic_args a) | _ => false end in
